@@ -99,6 +99,7 @@ static volatile long g_ub = 0;
 
 # ------------------------------------------------------------------------------------------------
 LAYOUT = COMMON + r'''
+extern "C" void __ubsan_on_report(void) { g_ub = g_ub + 1; }
 struct Row { const char* u; const char* r; void (*f)(const char*, const char*); };
 
 template <class X, class R> static unsigned facts() {
@@ -138,6 +139,7 @@ template <class U, class R> static void row(const char* un, const char* rn) {
 using namespace au;
 int main() {
 @ROWS@
+    std::printf("U ub=%ld\n", (long)g_ub);
     return 0;
 }
 '''
